@@ -154,6 +154,34 @@ func treeCase(scratch string, id int, paths []string, goMod string) (msg string,
 			}
 		}
 	}
+	// other spellings of the same root directory (trailing separator, "/.", doubled separator, through a
+	// sibling and back) must give the same archive and the same check result
+	if errD == nil {
+		for _, alt := range []string{root + string(filepath.Separator), root + string(filepath.Separator) + ".", filepath.Dir(root) + string(filepath.Separator) + string(filepath.Separator) + filepath.Base(root), filepath.Dir(root) + string(filepath.Separator) + "zz" + string(filepath.Separator) + ".." + string(filepath.Separator) + filepath.Base(root)} {
+			if strings.Contains(alt, "zz") {
+				os.Mkdir(filepath.Join(filepath.Dir(root), "zz"), 0o755)
+			}
+			var ba bytes.Buffer
+			if err := modzip.CreateFromDir(&ba, mv, alt); err != nil {
+				return fmt.Sprintf("tree %q: CreateFromDir succeeds for %q but fails for the spelling %q: %v", paths, root, alt, err), true
+			}
+			ea, _ := entries(ba.Bytes())
+			ed, _ := entries(bd.Bytes())
+			if len(ea) != len(ed) {
+				return fmt.Sprintf("tree %q: CreateFromDir gives %d entries for %q and %d for the spelling %q", paths, len(ed), root, len(ea), alt), true
+			}
+			for n, d := range ed {
+				if a, ok := ea[n]; !ok || a != d {
+					return fmt.Sprintf("tree %q: entry %q differs between %q and the spelling %q", paths, n, root, alt), true
+				}
+			}
+			ca, errA := modzip.CheckDir(alt)
+			c0, err0 := modzip.CheckDir(root)
+			if (errA == nil) != (err0 == nil) || len(ca.Valid) != len(c0.Valid) || len(ca.Invalid) != len(c0.Invalid) || len(ca.Omitted) != len(c0.Omitted) {
+				return fmt.Sprintf("tree %q: CheckDir differs between %q and the spelling %q", paths, root, alt), true
+			}
+		}
+	}
 	cd, errCD := modzip.CheckDir(root)
 	cl, errCL := modzip.CheckFiles(files)
 	strip := func(ps []string) []string {
@@ -246,6 +274,16 @@ func Run(r *fw.Run) {
 			}
 		}
 	}
+	// counts: lists of many files (sizes on both sides of 8, 16, 64, 128, 1024), all valid, and with one
+	// colliding, one vendored and one nested-module file near the end
+	for _, n := range []int{7, 8, 9, 15, 16, 17, 63, 64, 65, 66, 127, 128, 129, 1000, 1025} {
+		var ps []string
+		for i := 0; i < n; i++ {
+			ps = append(ps, fmt.Sprintf("d%d/f%04d.go", i%5, i))
+		}
+		jobs = append(jobs, job{append([]string{}, ps...)})
+		jobs = append(jobs, job{append(append([]string{"go.mod"}, ps...), "D0/F0000.GO", "vendor/p/x.go", "sub/go.mod", "sub/x.go")})
+	}
 	// byte sweep over names: alone and next to a fixed neighbour
 	for _, n := range zipx.SweepNames() {
 		jobs = append(jobs, job{[]string{n}}, job{[]string{"N", n}})
@@ -274,6 +312,9 @@ func Run(r *fw.Run) {
 				// mode variants
 				variants := [][]zipref.Mode{make([]zipref.Mode, len(base))}
 				for pos := range base {
+					if len(base) > 4 {
+						break // long lists: all regular
+					}
 					for _, m := range allModes {
 						v := make([]zipref.Mode, len(base))
 						v[pos] = m
@@ -285,7 +326,22 @@ func Run(r *fw.Run) {
 					var firstErr *bool
 					var firstClass map[string]string
 					collisionFree := true
-					enum.Permutations(len(base), func(p []int) {
+					perms := enum.Permutations
+					if len(base) > 4 {
+						// long lists: the given order, the reverse and one rotation instead of every order
+						perms = func(n int, f func([]int)) {
+							id := make([]int, n)
+							rev := make([]int, n)
+							rot := make([]int, n)
+							for i := range id {
+								id[i], rev[i], rot[i] = i, n-1-i, (i+n/3)%n
+							}
+							f(id)
+							f(rev)
+							f(rot)
+						}
+					}
+					perms(len(base), func(p []int) {
 						paths := make([]string, len(base))
 						ms := make([]zipref.Mode, len(base))
 						for i, x := range p {
